@@ -25,6 +25,9 @@ func (s *Sim) runWorkersToCompletion(budget int) int {
 	for {
 		progress := false
 		for _, w := range s.ParkedWorkers() {
+			if w.done || w.pending == nil {
+				continue // finished meanwhile (a panic elsewhere restarted the process)
+			}
 			s.releaseWith(w, FNone, 0)
 			progress = true
 		}
@@ -181,6 +184,23 @@ func (s *Sim) Quiesce() {
 	if !s.Cfg.Liveness {
 		return
 	}
+	hostile := false
+	for i := range s.Cfg.Sets {
+		if s.Cfg.Sets[i].Hostile > 0 {
+			hostile = true
+		}
+	}
+	if hostile {
+		// C15 profile: the hostile set may legitimately never settle (nothing is
+		// demanded of it but "no panic"); the well-formed neighbour must have converged
+		for _, ky := range s.Store.Keys(KSet) {
+			set := s.Store.tables[KSet][ky].(*asv1.StatefulSet)
+			if msg := s.fixedPointDefect(set); msg != "" {
+				s.violate("C02", "C02.no-fixed-point", strings.SplitN(msg, ":", 2)[0], fmt.Sprintf("set %s next to a hostile set did not converge: %s", set.Name, msg))
+			}
+		}
+		return
+	}
 	if !fixed {
 		s.violate("C02", "C02.no-fixed-point", "budget", fmt.Sprintf("no fixed point after %d rounds / %d reconciles (bound R=%d)", round, reconciles, R))
 		return
@@ -255,28 +275,28 @@ func (s *Sim) pendingTotal() int {
 	return n
 }
 
-// fireDelayed advances virtual time until every rate-limited re-add has
-// surfaced in the queue (bounded by the limiter's maximum delay).
+// fireDelayed advances virtual time far enough for every rate-limited re-add to
+// have surfaced in the queue: the per-item exponential delay of the default
+// controller rate limiter is 5ms*2^(requeues-1), capped at 1000s.
 func (s *Sim) fireDelayed() {
 	q := s.inc.queue
 	if len(q.delayed) == 0 {
 		return
 	}
-	d := time.Millisecond
-	var total time.Duration
-	for len(q.delayed) > 0 && q.Len() == 0 {
-		s.Advance(d)
-		total += d
-		if d < 100*time.Second {
-			d *= 2
+	var need time.Duration
+	for _, k := range sortedKeys(q.delayed) {
+		n := q.NumRequeues(k)
+		d := 1000 * time.Second
+		if n < 18 {
+			d = 5 * time.Millisecond << uint(n)
 		}
-		if total > 3000*time.Second {
-			harnessf("delayed key never surfaced: %v", sortedKeys(q.delayed))
+		if d > need {
+			need = d
 		}
 	}
-	// keys that are in the queue proper are no longer "delayed"
-	if q.Len() > 0 {
-		// they will be cleared by Get
+	s.Advance(need + 200*time.Millisecond)
+	for _, k := range sortedKeys(q.delayed) {
+		delete(q.delayed, k) // surfaced (or being processed); Get clears it as well
 	}
 }
 
@@ -290,6 +310,11 @@ func (s *Sim) fixedPointDefect(set *asv1.StatefulSet) string {
 	}
 	if _, err := setSelector(set); err != nil {
 		return ""
+	}
+	for i := range s.Cfg.Sets {
+		if s.Cfg.Sets[i].Name == set.Name && s.Cfg.Sets[i].Hostile > 0 {
+			return "" // C15 profile: only "no panic" is demanded of this set
+		}
 	}
 	D := setDesired(set)
 	live := map[int32]*v1.Pod{}
